@@ -437,11 +437,11 @@ func zzH_C08_arrays_writer_size(t *zzT) {
 // element that crosses the declared length, a uint64 element truncated by ReadUInt32s).
 //
 //zz:opt loop=64 paths=400000 require=accepted,rejected,canonical
-//zz:quick N=5
-//zz:thorough N=7 budget=1800s
+//zz:quick N=6
+//zz:thorough N=8 budget=1800s
 func zzH_C08_arrays_accept_reencode(t *zzT) {
 	kind := t.Choice("kind", 6)
-	b := zzBuf(t, "b", t.Param("N", 5))
+	b := zzBuf(t, "b", t.Param("N", 6))
 	const f = 1
 	r := NewReader(b)
 	switch kind {
